@@ -1,4 +1,5 @@
 //go:build verif
+
 //verif:dest pkg/tickmath/zz_verif_c11_tickmath.go
 
 package tickmath
